@@ -12,6 +12,7 @@ import coqterm as ct
 import fgutils.parse as fp
 
 ID = "C01"
+REPEAT_PROBE = True   # engine: repeat 1 call in 5 after editing its first result in place (purity / no shared state)
 PROPS = "Props/C01.v"
 USES_GEN = ["lexer"]
 MODEL_FILES = ["Model/Parse.v", "Spec/ParseSpec.v"]
